@@ -388,6 +388,7 @@ pub fn run(ctx: &Ctx) -> Report {
     let n = ctx.cases(350_000, 6_000_000);
     run_generated(&mut sec, ctx.seed, n, ctx.workers, || strategy(gen::ConfigMenu::all_transports()), check, sig);
     rep.sections.push(sec);
+    super::history_section(&mut rep, ctx, ctx.seed ^ 0x64, ctx.cases(100_000, 2_000_000), || strategy(gen::ConfigMenu::all_transports()), check, sig);
     // the 16-bit sections build their own crates (independent of this binary's profile): once per feature setting is enough
     if !ctx.wrap_profile() {
         if std::env::var("VERIF_SKIP_MIRI").is_err() {
@@ -408,6 +409,9 @@ pub fn replay(section: &str, case: &Value) -> Result<(), String> {
             Some(v) => Err(v.reason),
             None => Ok(()),
         };
+    }
+    if section.starts_with("after-history") {
+        return super::replay_history(case, check);
     }
     check(&de::<ProgCase>(case)?, &mut CaseInfo::default())
 }
